@@ -226,6 +226,62 @@ def threads_reach(*a):
     return LAST != 'invalid-world' and len(LAST[13]) == 2
 
 
+PATSETS = [['ignored'], ['(?i)(zeo|zrpc)', 'Pool-'], ['(zz)top', r'(\w+)-\1$'], ['ignored', 'Pool-']]
+BNAMES = ['worker', 'pool-7', 'Pool-7', 'sync-sync', 'ignored-x', 'ZEO.client', 'zztop']
+ANAMES = ['ignored-a', 'Pool-main', 'A', 'worker: job-1']
+_OPTP = {}
+
+
+def renames(ps, bn, an0, an1, b_leaks, a_known):
+    """Several --ignore-new-thread patterns (each is a pattern of its own: inline flags and group numbers do not leak from
+    one into another), and a thread that existed before the test and changes its name while the test runs: it is still
+    a thread that existed before the test."""
+    global LAST
+    import re
+    del TABLE[:]
+    del REPORTED[:]
+    pats = pick(PATSETS, ps)
+    bname, a0, a1 = pick(BNAMES, bn), pick(ANAMES, an0), pick(ANAMES, an1)
+    b_leaks, a_known = cb(b_leaks), cb(a_known)
+    _start(1 << 40, 'Main', True)
+    a = _start(1, a0, a_known)
+    state = {}
+
+    def t0():
+        a['obj'].name = a1          # e.g. a pool worker naming itself after the job it picks up
+        state['b'] = _start(2, bname, True)
+        if not b_leaks:
+            _kill(state['b'])
+
+    def t1():
+        pass
+    with untraced():
+        key = tuple(pats)
+        if key not in _OPTP:
+            argv = ['t']
+            for p_ in pats:
+                argv += ['--ignore-new-thread', p_]
+            _OPTP[key] = get_options(argv, [])
+        opts = type(_OPTP[key])()
+        opts.__dict__.update(_OPTP[key].__dict__)
+    opts.resume_layer = None
+    opts.resume_number = 0
+    opts.output = Out()
+    name_from_layer(UnitTests)
+    R.run_tests(opts, unittest.TestSuite([mk_test('t0', t0, True), mk_test('t1', t1, True)]), UNIT, [], [], [], [])
+    with untraced():
+        exp = []
+        if b_leaks and not any(re.match(p_, bname) for p_ in pats):
+            exp.append(('t0', [bname]))
+    LAST = ('renames', tuple(pats), bname, a0, a1, b_leaks, a_known, list(REPORTED))
+    return REPORTED == exp
+
+
+def renames_reach(*a):
+    renames(*a)
+    return len(LAST[7]) == 1 and LAST[3] != LAST[4]
+
+
 _P = [('id_a', 'int'), ('id_b', 'int'), ('id_c', 'int'), ('a_exists', 'bool'), ('a_known', 'bool'), ('a_end', 'int'), ('b_known', 'bool'),
       ('b_name', 'int'), ('b_end', 'int'), ('c_exists', 'bool'), ('c_known', 'bool'), ('c_name', 'int'), ('c_leaks', 'bool'), ('lingers', 'bool'), ('skip0', 'bool')]
 _C = 'True, ' + ', '.join(n for n, _ in _P)
@@ -248,7 +304,7 @@ SPEC = {
     'encoded': ['zope.testrunner.threadsupport.enumerate', 'threadsupport.ThreadProxy.__eq__', 'threadsupport.DummyThread',
                 'zope.testrunner.runner.TestResult.startTest', 'TestResult.stopTest (thread difference + ignore patterns)',
                 'zope.testrunner.runner.run_tests'],
-    'files': ['src/zope/testrunner/threadsupport.py', 'src/zope/testrunner/runner.py'],
+    'files': ['src/zope/testrunner/threadsupport.py', 'src/zope/testrunner/runner.py', 'src/zope/testrunner/options.py'],
     'stubs': ['threadsupport.current_frames / threadsupport.threading -> table model (ident, name, known-to-threading, alive); '
               'idents are distinct among simultaneously alive threads and may be reused after death',
               'options.output -> recorder of test_threads()', 'runner.time -> constant clock'],
@@ -274,5 +330,13 @@ SPEC = {
                     'thorough': ['b_end == %d and id_b == %d and id_c == %d and a_end == %d' % (e, i, c, a) for e in range(4) for i in (1, 2) for c in range(1, i + 2) for a in range(3)]},
          'timeout': {'quick': 240, 'thorough': 800},
          'fidelity': [_v(), _v(a_end=1, id_c=1, c_known=True)]},
+        {'name': 'renames', 'fn': 'renames', 'params': [('ps', 'int'), ('bn', 'int'), ('an0', 'int'), ('an1', 'int'), ('b_leaks', 'bool'), ('a_known', 'bool')],
+         'call': 'ps, bn, an0, an1, b_leaks, a_known',
+         'bounds': {'quick': '0 <= ps < %d and 0 <= bn < %d and 0 <= an0 < %d and 0 <= an1 < %d' % (len(PATSETS), len(BNAMES), len(ANAMES), len(ANAMES)),
+                    'thorough': '0 <= ps < %d and 0 <= bn < %d and 0 <= an0 < %d and 0 <= an1 < %d' % (len(PATSETS), len(BNAMES), len(ANAMES), len(ANAMES))},
+         'slices': {'quick': ['ps == %d' % i for i in range(len(PATSETS))], 'thorough': ['ps == %d and an0 == %d' % (i, j) for i in range(len(PATSETS)) for j in range(len(ANAMES))]},
+         'reach': 'renames_reach', 'reach_bounds': {'quick': 'ps == 0 and bn == 0 and an0 == 0 and an1 == 3', 'thorough': 'ps == 0 and bn == 0 and an0 == 0 and an1 == 3'},
+         'timeout': {'quick': 240, 'thorough': 800},
+         'fidelity': [dict(ps=1, bn=1, an0=1, an1=3, b_leaks=True, a_known=True), dict(ps=2, bn=3, an0=2, an1=2, b_leaks=True, a_known=False), dict(ps=0, bn=4, an0=0, an1=3, b_leaks=False, a_known=True)]},
     ],
 }
